@@ -720,79 +720,92 @@ func ruleValidateAction(r *Run, rule string) {
 		return
 	}
 	info := fl.Info
-	badChk, badPlug := "", ""
-	sawChk, sawPlug := false, false
-	for i := range paths {
-		p := &paths[i]
-		if p.Exit != ExitReturn {
-			continue
+	isTypeCall := func(e ast.Expr) bool {
+		c, ok := e.(*ast.CallExpr)
+		if !ok {
+			return false
 		}
-		var ret *Event
-		for j := range p.Ev {
-			if p.Ev[j].Kind == EvReturn {
-				ret = &p.Ev[j]
-			}
-		}
-		if ret == nil {
-			continue
-		}
-		isNil, _ := ReturnsNilLast(info, *ret)
-		isAction := false
-		underChecks := false
-		isCheck := ""
-		plugNil := ""
-		for ci, e := range p.Ev {
-			if e.Kind == EvBranch && e.Cond != nil {
-				if e.Tag != nil && ValueKey(info, e.Cond) == "workflow.OTCheck" && e.Taken {
-					underChecks = true
-				}
-				if be, ok := ast.Unparen(e.Cond).(*ast.BinaryExpr); ok && be.Op == token.NEQ && ValueKey(info, be.Y) == "workflow.OTAction" && !e.Taken {
-					isAction = true
-				}
-				if x, op, ok := IsNilCompare(info, e.Cond); ok {
-					if o := ObjOf(info, x); o != nil && ShortType(o.Type()) == "plugins.Plugin" {
-						if (op == token.EQL) == e.Taken {
-							plugNil = "nil"
-						} else {
-							plugNil = "nonnil"
-						}
-					}
-				}
-			}
-			if e.Kind == EvCall && CalleeKey(e) == "plugins.Plugin.IsCheck" {
-				isCheck = UseOfResult(fl, p, ci).Verdict
-			}
-		}
-		if !isAction {
-			continue
-		}
-		if plugNil == "nil" {
-			sawPlug = true
-			if isNil && badPlug == "" {
-				badPlug = "an action naming an unknown plugin passes validateAction"
-			}
-		}
-		if isNil && plugNil != "nonnil" && badPlug == "" {
-			badPlug = "validateAction accepts an action without having looked its plugin up"
-		}
-		if underChecks {
-			if isCheck == "false" {
-				sawChk = true
-				if isNil && badChk == "" {
-					badChk = "an action under a Checks object whose plugin is not a check plugin passes validateAction"
-				}
-			}
-			if isNil && isCheck != "true" && badChk == "" {
-				badChk = "validateAction accepts an action under a Checks object without IsCheck() being true"
-			}
-		}
+		sel, ok := ast.Unparen(c.Fun).(*ast.SelectorExpr)
+		return ok && sel.Sel.Name == "Type" && len(c.Args) == 0
 	}
-	if !sawChk {
-		badChk = orOK(badChk, "validateAction has no rejecting branch for a non-check plugin under a Checks parent")
+	// the walked item's own Type() is selected from .Value, the parent's from the chain
+	isItemType := func(e ast.Expr) bool {
+		if !isTypeCall(e) {
+			return false
+		}
+		recv := ast.Unparen(e.(*ast.CallExpr).Fun.(*ast.SelectorExpr).X)
+		_, isIdx := recv.(*ast.IndexExpr)
+		return !isIdx
 	}
-	if !sawPlug {
-		badPlug = orOK(badPlug, "validateAction has no rejecting branch for an unknown plugin")
+	isParentType := func(e ast.Expr) bool {
+		if !isTypeCall(e) {
+			return false
+		}
+		recv := ast.Unparen(e.(*ast.CallExpr).Fun.(*ast.SelectorExpr).X)
+		_, isIdx := recv.(*ast.IndexExpr)
+		return isIdx
 	}
-	r.Check(rule, "validateAction:check-parent-requires-check-plugin", fn.Decl.Pos(), badChk == "", "%s", orOK(badChk, "OTCheck parent ∧ !IsCheck ⇒ error"))
-	r.Check(rule, "validateAction:unknown-plugin-rejected", fn.Decl.Pos(), badPlug == "", "%s", orOK(badPlug, "plug == nil ⇒ error"))
+	atom := func(e ast.Expr) (string, bool, bool) {
+		if neg, ok := EqAtom(info, e, isItemType, "workflow.OTAction"); ok {
+			return "is-action", neg, true
+		}
+		if neg, ok := EqAtom(info, e, isParentType, "workflow.OTCheck"); ok {
+			return "under-checks", neg, true
+		}
+		if CallAtom(info, e, "plugins.Plugin.IsCheck") {
+			return "is-check-plugin", false, true
+		}
+		if x, op, ok := IsNilCompare(info, e); ok {
+			if tv, ok := info.Types[x]; ok && ShortType(tv.Type) == "plugins.Plugin" {
+				return "plugin-unknown", op == token.NEQ, true
+			}
+		}
+		return "", false, false
+	}
+	// the situations validateAction must reject: no accepting path may be possible under them
+	situations := []struct {
+		key, what string
+		asg       map[string]bool
+	}{
+		{"validateAction:unknown-plugin-rejected", "an action naming a plugin the registry does not know", map[string]bool{"is-action": true, "plugin-unknown": true}},
+		{"validateAction:check-parent-requires-check-plugin", "an action under a Checks object whose plugin is not a check plugin", map[string]bool{"is-action": true, "plugin-unknown": false, "under-checks": true, "is-check-plugin": false}},
+	}
+	for _, s := range situations {
+		bad := ""
+		var bpos = fn.Decl.Pos()
+		nAccept, nReject := 0, 0
+		for i := range paths {
+			p := &paths[i]
+			if p.Exit != ExitReturn {
+				continue
+			}
+			var ret *Event
+			for j := range p.Ev {
+				if p.Ev[j].Kind == EvReturn && !p.Ev[j].Deferred {
+					ret = &p.Ev[j]
+				}
+			}
+			if ret == nil {
+				continue
+			}
+			isNil, _ := ReturnsNilLast(info, *ret)
+			refuted := PathRefuted(fl, p, -1, s.asg, atom)
+			if isNil {
+				nAccept++
+				if !refuted && bad == "" {
+					bad, bpos = "validateAction accepts "+s.what+" (an accepting path is possible in that situation; exit guard "+ExitGuardKey(fl, p)+")", ret.Pos
+				}
+			} else if !refuted {
+				nReject++
+			}
+		}
+		if nAccept == 0 {
+			r.Unresolved(rule, "validateAction accepting path")
+			return
+		}
+		if nReject == 0 && bad == "" {
+			bad = "validateAction has no rejecting path for " + s.what
+		}
+		r.Check(rule, s.key, bpos, bad == "", "%s", orOK(bad, "never accepted: "+s.what))
+	}
 }
